@@ -179,6 +179,15 @@ def run(repo: Repo, tier: str) -> Report:
         sent = [s for s in d.stores if s.rhs.key() == "nodata" and s.guards and (s.guards[-1].startswith("eq0[sum[ne0[") or s.guards[-1].startswith("not[any[ne0["))]
         ob("R-FORMULA", drv, "an all-nodata pixel is written as nodata without calling the fit", len(sent) == 1,
            f"stores of nodata: {[norm_stmt(s.stmt) for s in d.stores if s.rhs.key() == 'nodata']}", sent[0].stmt if sent else f"{drv}: all-nodata store")
+        # the sentinel survives the scaling: only cells of the *result* buffer that differ from nodata are multiplied by 1000 (a selection taken
+        # from the input series also scales the nodata that gammastd returns for negative observations: -9999 * 1000 saturates to -32768)
+        kp = spi.k[drv].params
+        for sca in [s_ for s_ in d.stores if "1000" in s_.rhs.key() and s_.arr not in kp]:
+            buf = sca.arr
+            cell = f"{buf}[{sca.idx_key}]"
+            sel_ok = (f"ne0[-1*{nd} + {cell}]" in sca.guards) or sca.idx_key == f"ne0[-1*{nd} + {buf}]"
+            ob("R-NARROW", drv, "only cells of the index buffer that differ from nodata are scaled (the sentinel is never multiplied)", sel_ok,
+               f"`{norm_stmt(sca.stmt)}` selects `{sca.idx_key}` under {list(sca.guards)}", sca.stmt)
     # every pixel / group iteration leaves a defined value in the output: either the output starts nodata-filled, or every path
     # through the iteration (including the one where the fit returns an all-nodata series) stores into it
     from ..cfg import CFG
